@@ -178,7 +178,31 @@ func cmdC07(args []string) error {
 		if err != nil {
 			return fmt.Errorf("diff: %v", err)
 		}
-		opt, _, oerr := realOptimize(dr.Patch, oldDir, newDir, op)
+		var opt []byte
+		var oerr error
+		switch k % 3 {
+		case 1:
+			// pools with a history: a first optimization under other settings went through them, then this one
+			pools := &optPools{}
+			warm := op
+			warm.Partitions, warm.Pools = (op.Partitions+1)%4, pools
+			if _, _, werr := realOptimize(dr.Patch, oldDir, newDir, warm); werr != nil {
+				oerr = fmt.Errorf("first optimization through the shared pools: %v", werr)
+				break
+			}
+			op.Pools = pools
+			opt, _, oerr = realOptimize(dr.Patch, oldDir, newDir, op)
+			line.Params += " shared-pools"
+		case 2:
+			// the patch judged is what a SECOND Optimize call of the same context wrote
+			var again []byte
+			op.Again = &again
+			_, _, oerr = realOptimize(dr.Patch, oldDir, newDir, op)
+			opt = again
+			line.Params += " second-call"
+		default:
+			opt, _, oerr = realOptimize(dr.Patch, oldDir, newDir, op)
+		}
 		if oerr != nil {
 			line.OptErr = oerr.Error()
 			w.emit(line)
